@@ -59,7 +59,8 @@ func canonScanMsg(msg string, data []byte, idx uint64) string {
 func lenAnswer(kind string, rest []byte) (ans string) {
 	defer func() {
 		if r := recover(); r != nil {
-			ans = "!0:" + hxs("PANIC-IN-SCHEMA-CORE")
+			// since fix e63b935 the scanner reports the panic of the dependency as an error at the body
+			ans = "!0:" + hxs(canonQuotes(fmt.Sprintf("%s: %v", "runtime failure", r)))
 		}
 	}()
 	file := fs.NewFile("", rest)
